@@ -12,6 +12,7 @@ vars == <<l, bad>>
 HasNulP(s) == \E i \in 1..Len(s) : s[i] = 0
 OkParse(e) ==
   /\ e.ub = 0                              \* no (format, input) pair causes undefined behaviour
+  /\ e.gl = 1                              \* the outcome does not depend on the process's global C++ locale (the grammar is fixed)
   /\ (~HasNulP(e.fmt) /\ ~HasNulP(e.input) /\ (e.z = 0 \/ ZT[e.z].ok)) =>
        LET zmake(cs) == IF e.z = 0 THEN SecondsOf(cs) \ominus W(e.zoff)
                         ELSE LET m == Make(ZT[e.z].z, cs) IN IF m.kind = "ILLFORMED" THEN TMax \oplus TMax ELSE m.rawpre
